@@ -205,6 +205,8 @@ def check(run):
     quick = run.tier == "quick"
     dist = Counter()
     base = blockgen.gen_blocks(rng.getrandbits(32), 90 if quick else 500, allow_split=True, max_len=24)
+    # long blocks: with -partition a block is split at a store after 24 instructions
+    base += blockgen.gen_blocks(rng.getrandbits(32), 30 if quick else 200, min_len=26, allow_split=False, max_len=48)
     base += [s for s in blockgen.snippet_blocks()[::2]]
     base += blockgen.mem_boundary_blocks()[::2 if quick else 1]
     files = sorted(glob.glob(os.path.join(common.REPO, "examples", "jsons-solc", "*.json_solc")))
@@ -226,7 +228,7 @@ def check(run):
             jobs.append((t, m)); kinds.append(kind)
     for kind, a, b in stmt_pairs(rng, 150 if quick else 900):
         jobs.append((a, b)); kinds.append(kind)
-    optsets = [["-greedy"], ["-greedy", "-storage"]] if quick else [["-greedy"], ["-greedy", "-storage"], ["-greedy", "-partition"], ["-greedy", "-no-simplification"]]
+    optsets = [["-greedy"], ["-greedy", "-storage"], ["-greedy", "-partition"]] if quick else [["-greedy"], ["-greedy", "-storage"], ["-greedy", "-partition"], ["-greedy", "-no-simplification"]]
     accepted, ameta = [], []
     evaluations = 0
     for opts in optsets:
